@@ -57,6 +57,29 @@ pub fn eval(ctx: &mut Ctx, op: &str, args: &[Sexp]) -> Option<String> {
             let v = if kind == "seq" { DVal::SeqAnn(n, vs?) } else { DVal::MapAnn(n, vs?) };
             Some(ser_answer(ser_all(&v)))
         }
+        "collectit" => {
+            // a Serialize impl that hands an iterator to collect_seq / collect_map
+            let is_map = args.first()?.atom()? == "map";
+            let lo: u64 = args.get(1)?.atom()?.parse().ok()?;
+            let hi = args.get(2)?.atom()?;
+            let hi = if hi == "none" { None } else { Some(hi.parse::<u64>().ok()?) };
+            let vs: Option<Vec<DVal>> = args[3..].iter().map(DVal::from_sexp).collect();
+            let vs = vs?;
+            let r = ser_all(&DVal::Collect(is_map, lo, hi, vs.clone()));
+            // oracle (C02): a length not known up front (size_hint not exact) is refused, never mis-framed
+            let n = if is_map { vs.len() / 2 } else { vs.len() };
+            match &r {
+                Ok(Ok(_)) if hi != Some(lo) => ctx.oracle_fail("a sequence/map of unknown length was written instead of being refused".into()),
+                Ok(Ok(b)) if lo as usize == n => {
+                    let plain = ser_all(&if is_map { DVal::Map(vs.clone()) } else { DVal::Seq(vs.clone()) });
+                    if plain != Ok(Ok(b.clone())) {
+                        ctx.oracle_fail("collect_seq/collect_map of an exact-size iterator differs from the plain sequence encoding".into());
+                    }
+                }
+                _ => {}
+            }
+            Some(ser_answer(r))
+        }
         "collect" => {
             let mut cs = Vec::new();
             for a in args {
@@ -213,6 +236,29 @@ pub fn gen_c02(r: &mut Rng, thorough: bool, out: &mut Vec<String>) {
         for _ in 0..200 {
             out.push(format!("serann {} {}", kind, gen_u(r, 64)));
         }
+    }
+    // iterators handed to collect_seq / collect_map: exact, inexact, unbounded size hints
+    for kind in ["seq", "map"] {
+        for (lo, hi, n) in [(0u64, Some(0u64), 0usize), (2, Some(2), 2), (0, Some(4), 2), (2, Some(4), 2), (1, None, 2), (0, None, 0), (3, Some(3), 3), (0, Some(3), 3), (127, Some(128), 2), (128, Some(128), 128)] {
+            let mut s = format!("collectit {} {} {}", kind, lo, hi.map_or("none".to_string(), |h| h.to_string()));
+            let cnt = if kind == "map" { 2 * n } else { n };
+            for i in 0..cnt {
+                s.push_str(&format!(" (u16 {})", 100 * i + 7));
+            }
+            out.push(s);
+        }
+    }
+    for _ in 0..60 {
+        let n = r.range(0, 5);
+        let lo = r.range(0, n);
+        let hi = match r.below(3) { 0 => None, 1 => Some(n), _ => Some(n + r.range(0, 3)) };
+        let kind = if r.chance(1, 2) { "seq" } else { "map" };
+        let mut s = format!("collectit {} {} {}", kind, if r.chance(1, 2) { n } else { lo }, hi.map_or("none".to_string(), |h| h.to_string()));
+        let cnt = if kind == "map" { 2 * n } else { n };
+        for _ in 0..cnt {
+            s.push_str(&format!(" {}", gen_val(r, &DTy::U(16), false)));
+        }
+        out.push(s);
     }
     // Display-collected strings
     out.push("collect".into());
